@@ -268,15 +268,66 @@ fn idset_random(seed: u64, cases: u64, w: usize, nw: usize) -> Report {
     rep
 }
 
+
+/// "Delete sets computed from a document contain exactly the ids of its deleted content": random histories on one
+/// or two replicas (nested types deleted with and without GC), then the delete set of the snapshot and the one
+/// carried by the full-state update are compared with the ids of deleted items and collected ranges in the hook dump.
+fn from_store(seed: u64, cases: u64, w: usize, nw: usize) -> Report {
+    use crate::sim::*;
+    use yrs::updates::decoder::Decode;
+    use yrs::{ReadTxn, Transact};
+    let mut rep = Report::default();
+    for ci in 0..cases { if ci as usize % nw != w { continue; }
+        let mut r = Rng::for_case(seed, 116, ci);
+        let gc = r.chance(2, 3);
+        let a = Replica::new(1, DocCfg { gc, ..DocCfg::default() });
+        let b = Replica::new(2, DocCfg { gc, ..DocCfg::default() });
+        let ecfg = EditCfg::default(); let mut tag = 0u64; let mut script = vec![format!("gc={gc}")];
+        for _ in 0..r.range(4, 14) {
+            let (src, dst) = if r.chance(2, 3) { (&a, &b) } else { (&b, &a) };
+            let mut sc = vec![]; let (u1, _) = local_txn(src, &mut r, &ecfg, false, 4, &mut sc, &mut tag); script.push(sc.join("; "));
+            if r.chance(2, 3) { for u in u1 { let _ = dst.apply_v1(&u); } dst.drain1(); }
+        }
+        for rp in [&a, &b] {
+            let vs = store_dump(&rp.doc);
+            let mut want: Vec<(u64, u32)> = vec![];
+            for (c, bl) in &vs.blocks { for blk in bl { match blk {
+                yrs::verif::VBlock::Item(it) if it.deleted => for k in 0..it.len { want.push((*c, it.id.clock + k)); },
+                yrs::verif::VBlock::GC(id, len) => for k in 0..*len { want.push((*c, id.clock + k)); },
+                _ => {}
+            } } }
+            want.sort();
+            let flat = |s: &IdSet| -> Vec<(u64, u32)> { let mut v = vec![]; for (c, rs) in s.iter() { for rg in rs.iter() { for k in rg.start..rg.end { v.push((c.get(), k)); } } } v.sort(); v };
+            let snap = rp.doc.transact().snapshot();
+            let full = rp.doc.transact().encode_state_as_update_v1(&yrs::StateVector::default());
+            let upd_ds = yrs::Update::decode_v1(&full).map(|u| flat(u.delete_set())).unwrap_or_default();
+            rep.evaluations += 1;
+            if !want.is_empty() { rep.nontrivial_case(&format!("fs:{}:{}", ci, rp.client)); }
+            if vs.blocks.iter().any(|(_, bl)| bl.iter().any(|x| matches!(x, yrs::verif::VBlock::GC(..)))) { rep.count("from_store_docs_with_collected_ranges"); }
+            for (name, got) in [("snapshot", flat(&snap.delete_set)), ("full-state-update", upd_ds)] {
+                // encode_state_as_update appends the stashed update and the stashed delete set: ids that are not in the store yet
+                if name == "full-state-update" && (vs.has_pending || vs.has_pending_ds) { rep.count("from_store_update_skipped_pending"); continue; }
+                if got != want {
+                    rep.fail(json!({"property": "C16", "class": "delete-set-from-store-differs-from-deleted-ids", "where": name, "case": {"stream": 116, "index": ci, "seed": seed}, "script": script,
+                        "missing": want.iter().filter(|x| !got.contains(x)).take(12).map(|(c, k)| format!("{:x}:{:x}", c, k)).collect::<Vec<_>>(),
+                        "extra": got.iter().filter(|x| !want.contains(x)).take(12).map(|(c, k)| format!("{:x}:{:x}", c, k)).collect::<Vec<_>>()}));
+                }
+            }
+        }
+    }
+    rep
+}
+
 pub fn run(tier: &str, seed: u64, workers: usize) -> Report {
     let (nset, nmap, stride, rnd) = if tier == "thorough" { (10, 5, 1, 200000) } else { (8, 4, 1, 5000) };
     let mut total = parallel(workers, |w, nw| {
         let mut r = set_exhaustive(nset, w, nw);
         r.merge(map_exhaustive(nmap, w, nw, stride));
         r.merge(idset_random(seed, rnd, w, nw));
+        r.merge(from_store(seed, if rnd > 5000 { 20000 } else { 1500 }, w, nw));
         r
     });
     total.exhaustive = true;
-    total.notes.push(format!("exhaustive: IdRanges<()> over {} clocks (all pairs x merge/exclude/intersect/subset_of, all ranges x insert/remove, contains); IdMap over {} clocks x 2 attributes (all pairs x merge/intersect/diff, all ranges x insert(3 attr sets)/remove); plus {} random multi-client IdSet programs", nset, nmap, rnd));
+    total.notes.push(format!("exhaustive: IdRanges<()> over {} clocks (all pairs x merge/exclude/intersect/subset_of, all ranges x insert/remove, contains); IdMap over {} clocks x 2 attributes (all pairs x merge/intersect/diff, all ranges x insert(3 attr sets)/remove); plus {} random multi-client IdSet programs; plus delete sets computed from documents (snapshot and full-state update) compared with the deleted / collected ids of the hook dump on random two-replica histories with nested types, GC on and off", nset, nmap, rnd));
     total
 }
